@@ -128,13 +128,91 @@ def _rewrite_unit_inv(text):
         text = text[:i] + "(seq.nth " + arg + " 0)" + text[end + 1:]
 
 
+def _top_forms(text):
+    """split an SMT-LIB2 text into its top-level forms (comments dropped)"""
+    forms, i, n = [], 0, len(text)
+    while i < n:
+        c = text[i]
+        if c == ";":
+            while i < n and text[i] != "\n":
+                i += 1
+        elif c == "(":
+            depth, j = 0, i
+            while j < n:
+                d = text[j]
+                if d == '"':
+                    j += 1
+                    while j < n and text[j] != '"':
+                        j += 1
+                elif d == "|":
+                    j += 1
+                    while j < n and text[j] != "|":
+                        j += 1
+                elif d == "(":
+                    depth += 1
+                elif d == ")":
+                    depth -= 1
+                    if depth == 0:
+                        break
+                j += 1
+            forms.append(text[i:j + 1])
+            i = j
+        i += 1
+    return forms
+
+
+def _order_declarations(text):
+    """z3's printer may emit a datatype group before a datatype it refers to (seen with several groups of mutually recursive
+    types): emit sorts first, then the datatype groups in dependency order; everything else keeps its order"""
+    import re as _re
+    forms = _top_forms(text)
+    sorts = [f for f in forms if f.startswith("(declare-sort")]
+    dts = [f for f in forms if f.startswith("(declare-datatypes")]
+    rest = [f for f in forms if not f.startswith("(declare-sort") and not f.startswith("(declare-datatypes")]
+    if len(dts) < 2:
+        return text
+    names = []
+    for f in dts:
+        head = f[len("(declare-datatypes"):]
+        # ((A 0) (B 0)) (...)
+        depth, j = 0, 0
+        for j, ch in enumerate(head):
+            if ch == "(":
+                depth += 1
+            elif ch == ")":
+                depth -= 1
+                if depth == 0:
+                    break
+        names.append(set(_re.findall(r"\(\s*([^\s()]+)\s+\d+\s*\)", head[:j + 1])))
+    allnames = set().union(*names)
+    deps = []
+    for k, f in enumerate(dts):
+        toks = set(_re.findall(r"[^\s()]+", f))
+        deps.append({m for m in range(len(dts)) if m != k and (names[m] & toks)})
+    done, order = set(), []
+    while len(order) < len(dts):
+        progressed = False
+        for k in range(len(dts)):
+            if k not in done and deps[k] <= done:
+                order.append(k)
+                done.add(k)
+                progressed = True
+        if not progressed:      # cyclic (should not happen: z3 groups mutually recursive types): keep the remaining order
+            order.extend(k for k in range(len(dts)) if k not in done)
+            break
+    pre = [f for f in rest if f.startswith("(set-")]
+    post = [f for f in rest if not f.startswith("(set-")]
+    return "\n".join(pre + sorts + [dts[k] for k in order] + post) + "\n"
+
+
 def _dump_text(text):
+    text = _order_declarations(text)
     return "(set-logic ALL)\n" + _rewrite_unit_inv(text.replace("seq.nth_i", "seq.nth").replace("seq.nth_u", "seq.nth"))
 
 
 def _dump(solver):
     # z3 prints two internal variants of seq.nth (in-bounds / underspecified); both are SMT-LIB seq.nth
-    return "(set-logic ALL)\n" + _rewrite_unit_inv(solver.to_smt2().replace("seq.nth_i", "seq.nth").replace("seq.nth_u", "seq.nth"))
+    return _dump_text(solver.to_smt2())
 
 
 def check_valid(assumptions, goal, lemmas=(), timeout_ms=None, want_model=True, max_fuel=3, refute=True, thorough=False,
@@ -307,7 +385,7 @@ def check_valid(assumptions, goal, lemmas=(), timeout_ms=None, want_model=True, 
             s2.add(a)
         for (qv, body, pats) in axioms:
             s2.add(z3.ForAll(list(qv), body, patterns=list(pats)) if (qv and pats) else (z3.ForAll(list(qv), body) if qv else body))
-        r2, m = _z3_child(s2.to_smt2(), timeout_ms / 1000.0, want_model)
+        r2, m = _z3_child(_dump(s2), timeout_ms / 1000.0, want_model)
         if r2 == "sat":
             return dict(status="refuted", time_s=time.time() - t0, model=m, backend="z3")
     return dict(status="unknown", time_s=time.time() - t0, model=None, backend="z3+cvc5", reason=last,
